@@ -106,6 +106,27 @@ theorem survived_done (ops : List Op) (k : Nat) (hk : k < ops.length) : survived
     rw [List.drop_eq_getElem_cons hk]; rfl
   rw [this, List.take_append_drop]
 
+/-! ### The whole state (level, time, duration, message, details), not only its level -/
+
+/-- **Whatever record a bucket holds for an id is the WHOLE state last recorded for that id** — after any
+history, and hence (next theorem) at any crash point. The encoding of a record and its decoding (empty parts
+omitted, each entry decoded from a zero value) is `Kap.Props.C08Rec.restore_roundtrip`. -/
+theorem disk_holds_whole_last_state (ops : List Op) (T id : String) (e : ES)
+    (h : (run {} ops).disk T id = some e) : lastState ops T id = some e := by
+  rw [run_disk _ rfl] at h
+  exact foldl_diskStep_state _ none ops T id (fun e' he' => by cases he') e h
+
+/-- **final-state-equals-uninterrupted, field by field**: after a restart at ANY crash point every state the
+topics show is, in all five fields, the state last recorded for that id by the recorded history — the state the
+uninterrupted run of that history holds on disk. -/
+theorem resume_whole_state (ops : List Op) (k j : Nat) (T id : String) (e : ES)
+    (h : (crashAt {} ops k j).restart.mem T id = some e) :
+    lastState (recorded ops k (crashDone ops k j)) T id = some e ∧
+    (run {} (recorded ops k (crashDone ops k j))).disk T id = some e := by
+  have hd : (crashAt {} ops k j).disk T id = some e := h
+  rw [crashAt_disk] at hd
+  exact ⟨disk_holds_whole_last_state _ T id e hd, hd⟩
+
 /-! ### Handlers -/
 
 /-- `handlers_not_misled` at full strength: at EVERY crash point, what the handlers of a live topic were last told
@@ -238,7 +259,7 @@ theorem failed_persist_not_recorded (fops : List FOp) (hf : ∀ f ∈ fops, f.2 
 `Collect` whose transaction fails the caller gets the error, the disk is untouched, the topic's memory shows the
 new level and the handlers have been told — exactly the state of a crash in the notify→transaction window,
 without a crash. -/
-theorem failed_persist_memory_ahead_of_disk (s : Svc) (T id : String) (l : Nat) (t : Int) :
+theorem failed_persist_memory_ahead_of_disk (s : Svc) (T id : String) (l : Nat) (t : Payload) :
     FOp.reportsError (.collect T id l t, 1) = true ∧
     fstep s (.collect T id l t, 1) = runMicros s ((Op.collect T id l t).micros.take 3) ∧
     (fstep s (.collect T id l t, 1)).disk = s.disk ∧
@@ -503,6 +524,15 @@ example :
     silent (multiSurvived crashDone ops cs) "t" "a" = false ∧
     silent [Op.collect "t" "a" 3 1, Op.update "t" "a" 2 2] "t" "a" = true ∧
     (multiCrash {} ops cs).mem.level "t" "a" = 1 ∧ (multiCrash {} ops cs).mem.level "t" "b" = 0 := by
+  decide
+
+/-- whole states: an id with duration and message next to one that has just turned critical -/
+example :
+    let ops := [Op.collect "t" "a" 3 { time := 5, duration := 120, message := "disk full" }, Op.collect "t" "b" 3 7,
+                Op.closeTopic "t", Op.collect "t" "a" 3 { time := 9, duration := 124 }]
+    (crashAt {} ops 3 2).restart.mem "t" "b" = some ⟨"b", 3, 7⟩ ∧
+    (recover {} ops 2 1).mem "t" "a" = some ⟨"a", 3, { time := 9, duration := 124 }⟩ ∧
+    lastState ops "t" "a" = some ⟨"a", 3, { time := 9, duration := 124 }⟩ := by
   decide
 
 end Kap.Props.C08
